@@ -28,6 +28,11 @@ BASE = dict(
     events=['0 = E "section a"', '5 = E "lyric b"', '5 = E "txt"', '12 = E "lyric c d"', '30 = E "section e"'],
     track=["0 = N 0 0", "0 = N 1 4", "3 = S 2 10", "4 = E solo", "12 = N 7 2"],
 )
+DUPS = dict(
+    sync=["0 = TS 4", "0 = B 120000", "10 = TS 3 3", "10 = TS 3 3", "20 = A 5000", "20 = A 5000"],
+    events=['0 = E "section a"', '0 = E "section a"', '5 = E "lyric b"', '5 = E "lyric b"', '7 = E "txt"', '7 = E "txt"'],
+    track=["0 = N 0 0", "2 = N 1 1", "3 = S 2 10", "3 = S 2 10", "4 = E solo", "4 = E solo"],
+)
 # un-indented look-alikes of the structural lines: a lone brace with trailing blanks, a header-like line
 BRACES = [RAW + "{ ", RAW + "} ", RAW + "}\t", RAW + " }", RAW + "{{", RAW + "[Song]", RAW + "   ", RAW + "", "{", "}", "50% garbage", "0 = N 1 0 % x", "%s %d %(x)s", "100%%", "{0} {x} {} {{", "0 = TS 4 0 = B 120000", "5 = B 1 6 = A 7", "1 = N 0 0 2 = N 1 0", '3 = E solo 4 = E "x"', 'x 0 = E "section a"', "junk 0 = N 0 0", "junk 0 = B 1"]
 # numbers a lenient conversion (int(), float()) would accept although the line language does not: zero-padded lane /
@@ -109,7 +114,7 @@ def plan(tier, seed):
         for gi in range(len(GARBAGE[sec]) + 1):
             shards.append(("ins", sec, gi, mult))
     shards.append(("song", mult))
-    shards += [("runs", sec) for sec in ("sync", "events", "track")]
+    shards += [("runs", sec) for sec in ("sync", "events", "track")] + [("dups", sec) for sec in ("sync", "events", "track")]
     shards.append(("pairs", mult))
     shards.append(("disjoint",))
     shards.append(("long",))
@@ -270,6 +275,28 @@ def run_shard(shard, ctx):
                     ctx.node()
                     check(ctx, sec, base[:pos] + [g] * n + base[pos:], n, base_text, o0, w0, "%s section, a run of %d lines %r at position %d" % (sec, n, g, pos))
                 check(ctx, sec, base[:1] + [g] * n + base[1:3] + [g] * (n + 1) + base[3:], 2 * n + 1, base_text, o0, w0, "%s section, runs of %d and %d lines %r" % (sec, n, n + 1, g))
+        return
+    if shard[0] == "dups":
+        # sections whose recognised lines are written TWICE, verbatim and adjacent: each copy is a line of its own
+        # (one datum each), and unparsable lines between, before or behind the copies change nothing
+        sec = shard[1]
+        base = DUPS[sec]
+        base_text = text_with(sec, base)
+        o0, w0 = run(base_text)
+        ctx.evaluations += 1
+        res = refmodel.model(base_text)
+        e1.check_model(ctx, "conservation", base_text, res, msg="%s section with every line written twice: each copy contributes its own datum" % sec, drop=("hopo", "sp"))
+        for g in GARBAGE[sec][:4] + BRACES[:1]:
+            ctx.node()
+            for counts in itertools.product(range(2), repeat=len(base) + 1):
+                lines, k = [], 0
+                for pos in range(len(base) + 1):
+                    if counts[pos]:
+                        lines.append(g)
+                        k += 1
+                    if pos < len(base):
+                        lines.append(base[pos])
+                check(ctx, sec, lines, k, base_text, o0, w0, "%s section with doubled lines, %r at insertion pattern %r" % (sec, g, list(counts)))
         return
     base_text = text_with("sync", BASE["sync"])
     o0, w0 = run(base_text)
